@@ -252,14 +252,82 @@ def nontrivial(c):
     return '...' in c.text
 
 
+SHARE_SHAPES = {
+    'shallow-then-deep': lambda s: [s(), [[s()]]],
+    'deep-then-shallow': lambda s: [[[s()]], s()],
+    'dict': lambda s: {'a': {'b': {'k': s()}}, 'c': {'k': s()}},
+    'tuple-and-call': lambda s: (s(), [valgen_call(s())]),
+    'three-levels': lambda s: [s(), [s()], [[s()]], [[[s()]]]],
+}
+
+
+def valgen_call(x):
+    valgen.ensure_registered()
+    return valgen.UserObj('make', (x,), [])
+
+
+def shared_oracle(term, shape, depth, width):
+    """the cut depends on the nesting level of an occurrence, not on the object: a value in which ONE object is
+    referenced at several levels prints, under every depth, like the equal value built from separate copies"""
+    mk = SHARE_SHAPES[shape]
+    one = valgen.build(term)[0]
+    shared = mk(lambda: one)
+    copies = mk(lambda: valgen.build(term)[0])
+    cfg = dict(depth=depth, width=width)
+    a, _w = PC.impl_pformat(shared, cfg)
+    b, _w = PC.impl_pformat(copies, cfg)
+    if a != b:
+        return 'depth=%r: one object referenced at several levels prints\n%s\n--- separate equal copies print ---\n%s' % (depth, a[:300], b[:300])
+    return None
+
+
+def shared_cases(tier, r):
+    out = []
+    subs = [('list', [('int', 1), ('int', 2)]), ('tuple', [('int', 1), ('list', [('int', 2)])]),
+            ('dict', [(('str', 'k'), ('tuple', [('int', 1), ('int', 2)]))]), ('set', [('int', 5)]),
+            ('list', [('list', [('list', [('int', 7)])])])]
+    for _ in range(10 if tier == 'quick' else 200):
+        subs.append(valgen.rand_val(r, r.randint(2, 8), {'sub'}))
+    for t in subs:
+        if t[0] not in ('list', 'tuple', 'dict', 'set', 'sub'):
+            continue
+        for shape in SHARE_SHAPES:
+            if shape == 'dict' and not valgen.hashable(('str', 'k')):
+                continue
+            for d in (0, 1, 2, 3, 4, 5, None):
+                out.append((t, shape, d, r.choice([20, 79])))
+    return out
+
+
+def shared_extra(run, res):
+    pprop.explicit_over_default('depth', 1, (None, 0, 2, 5))(run, res)
+    from common import rng as _rng
+    n = 0
+    for t, shape, d, w in shared_cases(run.tier, _rng(PROP + '/shared')):
+        n += 1
+        msg = shared_oracle(t, shape, d, w)
+        if msg and len(run.violations) < 6:
+            run.violation({'kind': 'shared-object-levels', 'term': PC.jsonable(t), 'shape': shape, 'depth': d, 'width': w,
+                           'detail': msg})
+    run.count(n)
+    run.coverage['shared_object_at_several_levels_cases'] = n
+
+
 def main(tier):
-    return pprop.run_property(PROP, tier, cases_for(tier), oracle, RULE, nontrivial=nontrivial,
-                              extra=pprop.explicit_over_default('depth', 1, (None, 0, 2, 5)))
+    return pprop.run_property(PROP, tier, cases_for(tier), oracle,
+                              RULE + ' One object referenced at several nesting levels (5 shapes x depths 0..5, None): '
+                              'same text as the equal value built from separate copies.',
+                              nontrivial=nontrivial, extra=shared_extra)
 
 
 def replay(path):
     import json
     p = json.load(open(path))
+    if p.get('kind') == 'shared-object-levels':
+        import printercheck as PC_
+        msg = shared_oracle(PC_.unjson(p['term']), p['shape'], p['depth'], p['width'])
+        print('oracle:', msg)
+        return 1 if msg else 0
     if p.get('kind') == 'explicit-over-default':
         import prettyprinter as P
         import printercheck as PC_
